@@ -83,6 +83,22 @@ Theorem cleanup_exactly_once_at_quiescence :
 Proof. exact cleanup_exactly_once_lemma. Qed.
 Print Assumptions cleanup_exactly_once_at_quiescence.
 
+From Thunder Require Import Reactive.Measure Reactive.ProofsCacheKeys.
+
+(** The cache of a rerunner (cache.computations, rerunner.go:72-76) holds at most one memoised computation per
+    key — cache.set stores only when the key is free (rerunner.go:90-92), cleanInvalidated and PurgeCache only
+    remove — and only under keys of reactive.Cache calls of the rerunner's compute function ([prog_keyl]), in
+    every reachable state: its size is bounded by the number of Cache calls of the function, whatever the
+    interleaving of lookups, insertions (also from goroutines inside the function), cleanInvalidated, PurgeCache
+    and the retry path's purge. *)
+Theorem cache_one_entry_per_key :
+  forall k progs s r, reachable (init k progs) s ->
+  NoDup (map fst (r_cache (getr s r))) /\
+  incl (map fst (r_cache (getr s r))) (prog_keyl (r_prog (getr s r))) /\
+  length (r_cache (getr s r)) <= prog_keys (r_prog (getr s r)).
+Proof. exact cache_one_entry_per_key_lemma. Qed.
+Print Assumptions cache_one_entry_per_key.
+
 (** non-vacuity: one rerunner reading slot 0 through a cached child and directly; run to quiescence,
     Invalidate the slot, run to quiescence again: the superseded resource (node 0) has had an addOut, has no
     dependant left and was cleaned up once; the published output carries the new version twice. *)
@@ -107,3 +123,6 @@ Example ex_quiescent_and_cleaned :
   quiescent ex_s2 /\ n_had (getN ex_s2 0) = true /\ n_out (getN ex_s2 0) = [] /\ n_hrel (getN ex_s2 0) <> None /\
   n_cln (getN ex_s2 0) = 1 /\ slot_ver ex_s2 0 = 1 /\ r_out (getr ex_s2 0) = Some [(0, 1); (0, 1)].
 Proof. vm_compute. repeat split; discriminate. Qed.
+
+Example ex_cache_entry : map fst (r_cache (getr ex_s2 0)) = [0] /\ prog_keyl ex_prog = [0].
+Proof. vm_compute. split; reflexivity. Qed.
